@@ -54,7 +54,8 @@ func c15Hooks() {
 	phase2.VerifPivotsHook = nil
 }
 
-const c15MaxSchedules = 400000
+// cap on the schedules explored per scenario (a run that hits it reports exhaustive:false for that scenario)
+var c15MaxSchedules = 40000
 
 var c15Solo []string
 
@@ -104,11 +105,17 @@ func evalC15(x *Ctx, in Input) {
 				x.Violate("C15:result-differs-from-solo", nil, map[string]any{"schedule": prefix}, fmt.Sprintf("thread %d (%s) returned something else than when run alone, under schedule %v", i, c15Pool[k].name, prefix))
 			}
 		}
+		if s.Deadlock != "" {
+			x.Violate("C15:deadlock", nil, map[string]any{"schedule": prefix}, s.Deadlock+fmt.Sprintf(" under schedule %v", prefix))
+			return
+		}
 		for v, d := range s.Races {
 			x.Violate("C15:data-race:"+v, nil, map[string]any{"schedule": prefix}, d)
 		}
 		if g := globalSnapshot(); g != snap0 {
-			x.Violate("C15:global-state-changed", nil, map[string]any{"schedule": prefix}, fmt.Sprintf("package-level state after the concurrent calls differs from before:\n%s\nvs\n%s", g, snap0))
+			// not a violation by itself (a correctly synchronised cache or counter is legitimate): the state is part of the
+			// scheduler's state key, results are compared with the solo results, accesses are judged by the race rule
+			x.Hist("package-level data differs after the scenario (informational)", 1)
 			globalRestore()
 		}
 		choices := make([]int, len(s.Trace))
@@ -236,6 +243,9 @@ func racePass() int {
 
 func init() {
 	checks["C15"] = func(tier string) []*Pass {
+		if tier == "thorough" {
+			c15MaxSchedules = 400000
+		}
 		ps := []*Pass{
 			{Name: "pairs", Space: c15Tuples(2), Eval: evalC15, BudgetS: 15,
 				Bound: fmt.Sprintf("2 threads: every ordered pair from a pool of %d (graph, options) items; EVERY interleaving of the accesses to package-level variables (unbounded preemptions, pruned by state key)", len(c15Pool))},
